@@ -51,6 +51,22 @@ THEOREMS = {
     "C12_mask_exact": "mask = Ok: all rows unobserved, everything else unchanged",
     "C12_unmask_exact": "unmask = Ok: all rows observed, everything else unchanged",
     "C12_save_load_exact": "save+load = Ok: rows (incl. mask and values), plate ids, plate mapping unchanged",
+    "C12_model_is_source_reveal_plates": "the translation of the WHOLE function batchie.retrospective.reveal_plates, regenerated from the source on every "
+                                         "run (np.isin reveal mask, all-zero guard, NaN guard, Screen(...) with observation_mask | reveal_mask and both "
+                                         "mappings passed) EQUALS the model's reveal_plates (carry_mappings true) for every screen and id list",
+    "C12_model_is_source_mask_screen": "the translation of mask_screen equals the model's mask_screen (carry_mappings true) for every screen",
+    "C12_model_is_source_unmask_screen": "the translation of unmask_screen equals the model's unmask_screen (carry_mappings true) for every screen",
+    "C12_model_is_source_set_observed": "the model's set_observed is the translation of Screen.set_observed run on the screen's observation and mask arrays "
+                                        "(two numpy boolean-mask assignments), put back into the screen; for every screen, selection and value list",
+    "C12_model_is_source_init_observations": "the translated statement run of Screen.__init__ that handles observations / observation_mask being None "
+                                             "(mask without observations => error; observations without mask => ones; neither => zeros) yields exactly "
+                                             "the columns of the rows the model's constructor stores, or its Err 7",
+    "C12_model_is_source_init_plate_check": "the translated loop of Screen.__init__ over np.unique(plate_names) (mixed plate => ValueError) IS the model's "
+                                            "plate_uniform: Ok iff plate_uniform, else Err 2",
+    "C12_model_is_source_init_mask_rules": "mk_screen = refuse ragged rows; run the two translated statement runs; then mk_screen on the rows they leave "
+                                           "with observations and mask given - for every argument combination",
+    "C12_source_arrays_aligned": "on a screen with encoded plate ids (every constructed screen) all arrays the translated reveal_plates combines have "
+                                 "one entry per row, so the truncating list meaning of a | b, a[mask] and the row zip is never exercised",
 }
 ASSUMPTIONS = [
     "observation values cross as float64 bit patterns (equality bit-for-bit; == 0 and isnan computed from the bits)",
@@ -65,7 +81,23 @@ EXPLANATION = ("Model: Model/Reveal.v (reveal_plates incl. guards, mask_screen, 
                "Model/Holdout.v, Model/Screen.v (mk_screen mask rules).  reveal_plates takes ONE screen: the plate ids are that screen's own "
                "(rank of the plate name among the names present), so ids of the training half need not equal the parent's ids for the same "
                "plate; the model re-derives them per screen exactly like the code.  Remark (not part of the property): derived screens "
-               "share the observation array with their source, so set_observed on a derived screen also changes the source's stored values.")
+               "share the observation array with their source, so set_observed on a derived screen also changes the source's stored values.  "
+               "SOURCE LINK (C12_model_is_source_*): reveal_plates, mask_screen, unmask_screen (retrospective.py), Screen.set_observed and the two "
+               "statement runs of Screen.__init__ that decide observations / observation_mask (data.py) are re-translated from the source on "
+               "every run by harness/py2gal.py (configurations C12_* in harness/src_functions.py, output coq/theories/Generated/SrcReveal.v) and "
+               "proved equal to the model for all inputs (Proofs/C12Source.v).  The link TRUSTS the translator and exactly these primitives "
+               "(meanings: end of Model/Reveal.v): a Screen object is the model's screen record; the attribute reads screen.treatment_names / "
+               "treatment_doses / observations / sample_names / plate_names / observation_mask = the corresponding column of its rows (2-d arrays "
+               "with their second dimension), screen.control_treatment_name, screen.plate_ids, screen.size, screen.treatment_mapping / "
+               "sample_mapping = the stored mapping with the flag 'integer id dtype'; numpy, one call each: np.isin(a, l), a[bool mask], "
+               "x == 0 and np.isnan(x) on a float array (bit patterns), np.all, np.any, a | b, np.zeros / np.ones(n, dtype=bool), "
+               "np.zeros((n,), dtype=float), a.shape != (n,), np.unique on strings (sorted, duplicate-free), names == name, bools == bool, "
+               "a[0] (IndexError when empty), a[mask] = array / = scalar (IndexError on a wrong mask length, ValueError unless as many values "
+               "as selected or one), np.issubdtype(<typed array>.dtype, <its type>) = True; and Screen(kw=...) = the model's constructor "
+               "mk_screen on the rows zipped from the passed arrays, WHICH keyword arguments are passed being read from the call site (absent "
+               "=> the default of Screen.__init__'s signature, which is checked).  For arrays of different lengths numpy raises where the list "
+               "functions truncate; C12_source_arrays_aligned shows this cannot occur on a constructed screen.  Not translated: the other "
+               "statements of Screen.__init__ (shape / dtype checks of the name and dose arrays, the id encoders = C01, attribute stores).")
 
 
 def _view(s):
